@@ -1,11 +1,25 @@
 package main
 
 // C01 — diff then apply (fresh) reproduces the new build exactly, for every compression setting.
+//
+// Groups (see checks/props/C01.json):
+//   pair    oracle only: lib.GenPair build pairs with high-entropy contents, sizes up to > 4 MiB
+//   fresh   the same pipeline on run-structured build pairs, also evaluated by the model
+//           (Patch/Stream.v write_patch, Patch/Patcher.v apply_patch_fresh, Bowl/Fresh.v)
+//   apply1  wsync.ApplySingleFull on an in-memory pool at tiny block sizes vs apply_range
+//   craft   hand-made message lists (full-file ops with trailing ops, short/long outputs,
+//           out-of-bounds ranges, unknown kinds, truncated series, bsdiff series) vs apply_fresh
 
 import (
+	"bytes"
 	"fmt"
+	"os"
 	"path/filepath"
+	"reflect"
 	"strings"
+
+	"github.com/itchio/lake/tlc"
+	"github.com/itchio/wharf/wsync"
 
 	"verif/harness/lib"
 )
@@ -13,8 +27,249 @@ import (
 func init() { register("C01", runC01) }
 
 func runC01(c *Ctx) error {
+	if err := c01Corpus(c); err != nil {
+		return err
+	}
+	if err := c01Apply1(c); err != nil {
+		return err
+	}
+	if err := c01Craft(c); err != nil {
+		return err
+	}
+	if err := c01Fresh(c); err != nil {
+		return err
+	}
+	return c01Pairs(c)
+}
+
+// ---------------------------------------------------------------- the pipeline on one pair
+
+type freshOpts struct {
+	class  string
+	comps  []lib.Compression // diff + apply under each; the decoded message lists must agree
+	model  bool              // also emit the Coq term (group fresh)
+	rel    []string
+	subkey string
+}
+
+func blk(v byte, n int) []byte { return bytes.Repeat([]byte{v}, n) }
+
+func cat(bs ...[]byte) []byte {
+	var out []byte
+	for _, b := range bs {
+		out = append(out, b...)
+	}
+	return out
+}
+
+// runFreshCase: write both builds, diff under every compression of o.comps, decode the patch,
+// check the stream, apply to an empty directory, compare the tree; emits one case.
+func runFreshCase(c *Ctx, name string, old, nw *lib.Build, o freshOpts) error {
+	base := filepath.Join(c.Tmp, name)
+	oldDir, newDir, outDir := filepath.Join(base, "old"), filepath.Join(base, "new"), filepath.Join(base, "out")
+	defer removeAll(base)
+	if err := old.WriteTo(oldDir); err != nil {
+		return err
+	}
+	if err := nw.WriteTo(newDir); err != nil {
+		return err
+	}
+	oldC, err := lib.Walk(oldDir)
+	if err != nil {
+		return err
+	}
+	newC, err := lib.Walk(newDir)
+	if err != nil {
+		return err
+	}
+	oracle := ""
+	obs := map[string]interface{}{}
+	var first *lib.DecodedPatch
+	var firstOut *lib.Build
+	applyCls := "ok"
+	for ci, comp := range o.comps {
+		var dr *lib.DiffResult
+		cls, msg := lib.Guard(func() error {
+			var err error
+			dr, err = lib.Diff(oldDir, newDir, comp, nil)
+			return err
+		})
+		obs["diff"] = cls
+		if cls != "ok" {
+			oracle = fmt.Sprintf("diff (%s) %s: %s", comp, cls, msg)
+			break
+		}
+		if ci == 0 {
+			obs["patchLen"], obs["fresh"], obs["reused"] = len(dr.Patch), dr.Fresh, dr.Reused
+		}
+		if dr.Fresh+dr.Reused != newC.Size {
+			oracle = fmt.Sprintf("fresh %d + reused %d bytes != new build size %d", dr.Fresh, dr.Reused, newC.Size)
+			break
+		}
+		dp, err := lib.DecodePatch(dr.Patch)
+		if err != nil {
+			oracle = fmt.Sprintf("patch (%s) does not follow the patch grammar: %v", comp, err)
+			break
+		}
+		if bad := checkPlainStream(dp, comp, oldC, newC, old, nw); bad != "" {
+			oracle = fmt.Sprintf("patch (%s): %s", comp, bad)
+			break
+		}
+		if first == nil {
+			first = dp
+			obs["msgs"] = lib.MsgSummary(dp.Msgs)
+		} else if !reflect.DeepEqual(first.Msgs, dp.Msgs) {
+			oracle = fmt.Sprintf("the message list under %s differs from the one under %s", comp, o.comps[0])
+			break
+		}
+		cls, msg = lib.Guard(func() error {
+			_, err := lib.ApplyFresh(dr.Patch, oldDir, outDir, nil, nil)
+			return err
+		})
+		obs["apply"] = cls
+		applyCls = cls
+		if cls != "ok" {
+			oracle = fmt.Sprintf("apply (%s) %s: %s", comp, cls, msg)
+			break
+		}
+		got, err := lib.ReadBuild(outDir)
+		if err != nil {
+			return err
+		}
+		if firstOut == nil {
+			firstOut = got
+		}
+		if d := lib.DiffBuilds(got, nw); d != "" {
+			oracle = fmt.Sprintf("output tree (%s) differs from the new build: %s", comp, d)
+			break
+		}
+		o2, err := lib.ReadBuild(oldDir)
+		if err != nil {
+			return err
+		}
+		if d := lib.DiffBuilds(o2, old); d != "" {
+			oracle = "fresh apply modified the old build: " + d
+			break
+		}
+	}
+	cs := &lib.Case{Class: o.class, Nontrivial: len(o.rel) >= 2 || (len(o.rel) == 1 && o.rel[0] != "identical"),
+		Input: map[string]interface{}{"old": old.Summary(), "new": nw.Summary(), "relations": o.rel, "compressions": compNames(o.comps), "sub": o.subkey},
+		Obs:   obs, Oracle: oracle}
+	if o.model && first != nil && firstOut != nil {
+		d := lib.NewPathDict()
+		rops := make([]string, len(first.Series))
+		for i := range first.Series {
+			ops := seriesOps(first, i)
+			s := make([]string, len(ops))
+			for k, op := range ops {
+				if op.Type == 0 {
+					s[k] = fmt.Sprintf("ROpRange %s %s %s", lib.CoqZ(op.FileIndex), lib.CoqZ(op.BlockIndex), lib.CoqZ(op.BlockSpan))
+				} else {
+					s[k] = "ROpData " + lib.CoqRle(op.Data)
+				}
+			}
+			rops[i] = lib.CoqList(s)
+		}
+		frames := []string{fmt.Sprintf("RFHeader %s %s", lib.CoqZ(int64(first.Algo)), lib.CoqZ(int64(first.Quality))),
+			"RFContainer " + lib.CoqContainer(first.Target, d), "RFContainer " + lib.CoqContainer(first.Source, d)}
+		for _, m := range first.Msgs {
+			frames = append(frames, "RFMsg ("+lib.CoqMsg(m)+")")
+		}
+		cs.Group = "fresh"
+		cs.Coq = fmt.Sprintf("($ID%%N, %s, %s, %s, %s, %s, %s, %s, %s)", lib.CoqZ(int64(first.Algo)), lib.CoqZ(int64(first.Quality)),
+			coqBuildInContainerOrder(oldC, old, d), coqBuildInContainerOrder(newC, nw, d), lib.CoqList(rops), lib.CoqList(frames),
+			lib.CoqZ(classCode(applyCls)), lib.CoqTree(firstOut, d))
+	}
+	c.Out.Emit(cs)
+	return nil
+}
+
+func compNames(cs []lib.Compression) []string {
+	out := make([]string, len(cs))
+	for i, c := range cs {
+		out[i] = c.String()
+	}
+	return out
+}
+
+// ---------------------------------------------------------------- fixed cases, run first
+
+func c01Corpus(c *Ctx) error {
+	BS := lib.BS
+	type pair struct {
+		name     string
+		old, new *lib.Build
+		rel      []string
+	}
+	var ps []pair
+	mk := func(es ...lib.Entry) *lib.Build {
+		b := &lib.Build{}
+		for _, e := range es {
+			b.Put(e)
+		}
+		return b
+	}
+	file := func(p string, d []byte) lib.Entry { return lib.Entry{Path: p, Kind: "file", Data: d} }
+	a := cat(blk(1, BS), blk(2, BS), blk(3, BS), blk(4, 100))
+	// block-aligned prefix / suffix of a larger old file; two old files sharing blocks; the same
+	// size as an old file but other content; exact multiple next to a short tail
+	ps = append(ps, pair{"prefix-suffix-share", mk(file("a.bin", a), file("d/b.bin", cat(blk(2, BS), blk(9, 10))), file("z.bin", blk(5, 2*BS))),
+		mk(file("pre.bin", a[:2*BS]), file("suf.bin", a[BS:]), file("d/b.bin", cat(blk(2, BS), blk(9, 10))), file("a.bin", cat(blk(1, BS), blk(2, BS), blk(7, BS), blk(4, 100))),
+			file("z.bin", blk(5, 2*BS)), file("z2.bin", blk(5, 2*BS+1)), file("e.bin", nil), lib.Entry{Path: "emptydir/x", Kind: "dir"}, lib.Entry{Path: "ln", Kind: "link", Dest: "a.bin"}),
+		[]string{"prefix", "suffix", "same", "edit", "grow", "empty", "dir-added", "link-added"}})
+	// whole-file copies under another name whose first block also starts other old files;
+	// an old file that is a prefix of the new one with equal block count
+	ps = append(ps, pair{"rename-swap", mk(file("x.bin", cat(blk(1, BS), blk(2, 5))), file("y.bin", cat(blk(1, BS), blk(3, 5))), file("w.bin", blk(1, BS)), file("gone/q.bin", blk(8, 3))),
+		mk(file("x.bin", cat(blk(1, BS), blk(3, 5))), file("y.bin", cat(blk(1, BS), blk(2, 5))), file("w2.bin", blk(1, BS)), file("w3.bin", cat(blk(1, BS), blk(2, 6)))),
+		[]string{"swap", "rename", "remove", "grow"}})
+	// everything empty / only directories and links
+	ps = append(ps, pair{"empties", mk(file("e.bin", nil), lib.Entry{Path: "d1/d2", Kind: "dir"}, lib.Entry{Path: "l", Kind: "link", Dest: "d1"}),
+		mk(file("e.bin", nil), file("e2.bin", nil), lib.Entry{Path: "d1", Kind: "dir"}, lib.Entry{Path: "l", Kind: "link", Dest: "d1/d2"}),
+		[]string{"empty", "dir-removed", "link-retarget"}})
+	for _, p := range ps {
+		if err := runFreshCase(c, "c01-corpus-"+p.name, p.old, p.new, freshOpts{class: "corpus/" + p.name, comps: lib.Compressions, model: true, rel: p.rel, subkey: p.name}); err != nil {
+			return err
+		}
+	}
+	return nil
+}
+
+// ---------------------------------------------------------------- generated, model-compared
+
+func c01Fresh(c *Ctx) error {
 	r := c.Rng.Fork()
-	n := c.N(24, 300)
+	n := nFor(c, 20, 600, 40)
+	maxSize := 3*lib.BS + 17
+	if !c.Thorough() {
+		maxSize = 2*lib.BS + 17 // the model side of a quick run stays within seconds
+	}
+	for i := 0; i < n; i++ {
+		cr := r.Fork()
+		old, nw, classes := lib.GenRunPair(cr, lib.RunPairOpts{MaxOld: 4, Links: true, MaxSize: maxSize})
+		rel := []string{}
+		for _, cl := range classes {
+			rel = append(rel, cl.Class+":"+cl.Path)
+		}
+		comps := []lib.Compression{lib.Compressions[(i+int(c.Seed))%len(lib.Compressions)]}
+		if i%10 == 9 {
+			comps = lib.Compressions
+		}
+		cls := "run-pair/" + comps[0].String()
+		if len(comps) > 1 {
+			cls = "run-pair/all-compressions"
+		}
+		if err := runFreshCase(c, fmt.Sprintf("c01-fresh-%d", i), old, nw, freshOpts{class: cls, comps: comps, model: true, rel: rel, subkey: fmt.Sprint(i)}); err != nil {
+			return err
+		}
+	}
+	return nil
+}
+
+// ---------------------------------------------------------------- generated, oracle only (large, high entropy)
+
+func c01Pairs(c *Ctx) error {
+	r := c.Rng.Fork()
+	n := nFor(c, 24, 400, 30)
 	for i := 0; i < n; i++ {
 		cr := r.Fork()
 		opts := lib.PairOpts{MaxFiles: 5, MaxSize: 4 * lib.BS, Links: true}
@@ -23,64 +278,514 @@ func runC01(c *Ctx) error {
 			opts.MaxSize = 5<<20 + 777
 		}
 		old, nw, rel := lib.GenPair(cr, opts)
-		comp := lib.Compressions[(i+int(c.Seed))%len(lib.Compressions)]
-		base := filepath.Join(c.Tmp, fmt.Sprintf("c01-%d", i))
-		oldDir, newDir, outDir := filepath.Join(base, "old"), filepath.Join(base, "new"), filepath.Join(base, "out")
-		if err := old.WriteTo(oldDir); err != nil {
-			return err
-		}
-		if err := nw.WriteTo(newDir); err != nil {
-			return err
-		}
-		oracle := ""
-		var dr *lib.DiffResult
-		cls, msg := lib.Guard(func() error {
-			var err error
-			dr, err = lib.Diff(oldDir, newDir, comp, nil)
-			return err
-		})
-		obs := map[string]interface{}{"diff": cls}
-		if cls != "ok" {
-			oracle = "diff " + cls + ": " + msg
-		} else {
-			obs["patchLen"] = len(dr.Patch)
-			obs["fresh"] = dr.Fresh
-			obs["reused"] = dr.Reused
-			cls, msg = lib.Guard(func() error {
-				_, err := lib.ApplyFresh(dr.Patch, oldDir, outDir, nil, nil)
-				return err
-			})
-			obs["apply"] = cls
-			if cls != "ok" {
-				oracle = "apply " + cls + ": " + msg
-			} else {
-				got, err := lib.ReadBuild(outDir)
-				if err != nil {
-					return err
-				}
-				if d := lib.DiffBuilds(got, nw); d != "" {
-					oracle = "output tree differs from the new build: " + d
-				}
-				// the old build must not have been touched by a fresh apply
-				if oracle == "" {
-					o2, err := lib.ReadBuild(oldDir)
-					if err != nil {
-						return err
-					}
-					if d := lib.DiffBuilds(o2, old); d != "" {
-						oracle = "fresh apply modified the old build: " + d
-					}
-				}
-			}
+		comps := []lib.Compression{lib.Compressions[(i+int(c.Seed))%len(lib.Compressions)]}
+		if c.Thorough() && i%6 == 0 {
+			comps = lib.Compressions
 		}
 		relKinds := map[string]bool{}
 		for _, x := range rel {
 			relKinds[strings.SplitN(x, ":", 2)[0]] = true
 		}
+<<<<<<< HEAD
 		c.Out.Emit(&lib.Case{Class: "pair/" + comp.String(), Nontrivial: len(rel) >= 2 || (len(rel) == 1 && rel[0] != "identical"),
 			Input: map[string]interface{}{"old": old.Summary(), "new": nw.Summary(), "relations": rel, "compression": comp.String(), "subseed": i},
 			Obs:   obs, Oracle: oracle})
 		removeAll(base)
+=======
+		if err := runFreshCase(c, fmt.Sprintf("c01-pair-%d", i), old, nw, freshOpts{class: "pair/" + comps[0].String(), comps: comps, rel: rel, subkey: fmt.Sprint(i)}); err != nil {
+			return err
+		}
+>>>>>>> ag-patcher
 	}
 	return nil
+}
+
+// ---------------------------------------------------------------- apply1: ApplySingleFull arithmetic
+
+func c01Apply1(c *Ctx) error {
+	r := c.Rng.Fork()
+	n := nFor(c, 500, 12000, 3000)
+	bss := []int{1, 2, 3, 4, 5, 8, 16}
+	for i := 0; i < n; i++ {
+		cr := r.Fork()
+		bs := bss[cr.Intn(len(bss))]
+		if i%97 == 96 {
+			bs = lib.BS
+		}
+		nf := cr.Range(1, 3)
+		files := make([][]byte, nf)
+		for k := range files {
+			nb := cr.Range(0, 4)
+			size := nb * bs
+			switch cr.Intn(4) {
+			case 0:
+				size += cr.Intn(bs)
+			case 1:
+				if size > 0 {
+					size--
+				}
+			case 2:
+				size++
+			}
+			if bs == lib.BS {
+				files[k] = lib.RunContent(cr, size)
+			} else {
+				d := make([]byte, size)
+				for j := range d {
+					d[j] = byte(1 + (j/bs)*16 + j%bs%16) // position-dependent, so that a shifted copy shows
+				}
+				files[k] = d
+			}
+		}
+		f := int64(cr.Intn(nf))
+		size := int64(len(files[f]))
+		nb := (size + int64(bs) - 1) / int64(bs)
+		var bi, sp int64
+		class := "in-bounds"
+		switch cr.Intn(10) {
+		case 0: // arbitrary, often out of bounds
+			f = int64(cr.Range(-1, nf))
+			bi, sp = int64(cr.Range(-2, int(nb)+2)), int64(cr.Range(-1, int(nb)+3))
+			class = "arbitrary"
+		case 1: // reaches past the last block
+			bi = int64(cr.Range(0, int(nb)))
+			sp = nb - bi + int64(cr.Range(1, 2))
+			class = "past-end"
+		default:
+			if nb == 0 {
+				bi, sp = 0, int64(cr.Range(0, 1))
+				class = "empty-file"
+			} else {
+				bi = int64(cr.Intn(int(nb)))
+				sp = int64(cr.Range(1, int(nb-bi)))
+				if cr.Chance(1, 3) {
+					sp = nb - bi // up to and including the (possibly short) last block
+				}
+			}
+		}
+		pool := lib.NewMemPool(files)
+		var out bytes.Buffer
+		cls, msg := lib.Guard(func() error {
+			return wsync.NewContext(bs).ApplySingleFull(&out, pool, wsync.Operation{Type: wsync.OpBlockRange, FileIndex: f, BlockIndex: bi, BlockSpan: sp}, true)
+		})
+		oracle := ""
+		inBounds := f >= 0 && int(f) < nf && bi >= 0 && sp >= 1 && bi+sp <= (int64(len(files[max64(f, 0)%int64(nf)]))+int64(bs)-1)/int64(bs)
+		if inBounds {
+			d := files[f]
+			from, to := bi*int64(bs), (bi+sp)*int64(bs)
+			if to > int64(len(d)) {
+				to = int64(len(d))
+			}
+			if cls != "ok" {
+				oracle = "in-bounds range: " + cls + ": " + msg
+			} else if !bytes.Equal(out.Bytes(), d[from:to]) {
+				oracle = fmt.Sprintf("in-bounds range wrote %d bytes, the blocks hold %d (or other bytes)", out.Len(), to-from)
+			}
+		}
+		sizes := make([]int, nf)
+		rl := make([]string, nf)
+		for k := range files {
+			sizes[k] = len(files[k])
+			rl[k] = lib.CoqRle(files[k])
+		}
+		outB := out.Bytes()
+		if cls != "ok" {
+			outB = nil
+		}
+		c.Out.Emit(&lib.Case{Group: "apply1", Class: fmt.Sprintf("apply1/%s/bs%d", class, bs), Nontrivial: inBounds && sp >= 1,
+			Input: map[string]interface{}{"bs": bs, "sizes": sizes, "file": f, "blockIndex": bi, "blockSpan": sp},
+			Obs:   map[string]interface{}{"class": cls, "written": out.Len()}, Oracle: oracle,
+			Coq: fmt.Sprintf("($ID%%N, %s, %s, (%s, %s, %s), (%s, %s))", lib.CoqZ(int64(bs)), lib.CoqList(rl), lib.CoqZ(f), lib.CoqZ(bi), lib.CoqZ(sp),
+				lib.CoqZ(classCode(cls)), lib.CoqRle(outB))})
+	}
+	return nil
+}
+
+func max64(a, b int64) int64 {
+	if a > b {
+		return a
+	}
+	return b
+}
+
+// ---------------------------------------------------------------- craft: hand-made message lists
+
+type craft struct {
+	old   *lib.Build
+	files []craftFile // new container's files
+	dirs  []string
+	links [][2]string
+	msgs  []lib.PMsg
+	want  map[string][]byte // expected content per new file when the stream is well-formed (nil = no claim)
+	class string
+}
+type craftFile struct {
+	path string
+	size int64
+}
+
+func (cf *craft) container() *tlc.Container {
+	c := &tlc.Container{}
+	off := int64(0)
+	for _, d := range cf.dirs {
+		c.Dirs = append(c.Dirs, &tlc.Dir{Path: d, Mode: 0o755})
+	}
+	for _, f := range cf.files {
+		c.Files = append(c.Files, &tlc.File{Path: f.path, Mode: 0o644, Size: f.size, Offset: off})
+		off += f.size
+	}
+	for _, l := range cf.links {
+		c.Symlinks = append(c.Symlinks, &tlc.Symlink{Path: l[0], Mode: 0o777, Dest: l[1]})
+	}
+	c.Size = off
+	return c
+}
+
+// genCraft makes one crafted patch: per new file a series chosen among well-formed and
+// ill-formed shapes. olds are the old files in container (sorted path) order.
+func genCraft(r *lib.Rng) *craft { return genCraftWith(r, nil, -1) }
+
+// genCraftWith: forced (optional) fixes the shape of every new file's series (see the switch
+// below) and the old build (2 blocks + 9 bytes, 1 block); damage (optional, 0..3) applies one
+// stream-level damage.
+func genCraftWith(r *lib.Rng, forced []int, damage int) *craft {
+	BS := lib.BS
+	cf := &craft{old: &lib.Build{}, want: map[string][]byte{}}
+	nOld := r.Range(1, 3)
+	if forced != nil {
+		nOld = 2
+	}
+	var olds [][]byte
+	for i := 0; i < nOld; i++ {
+		size := []int{0, 5, BS - 1, BS, BS + 1, 2 * BS, 2*BS + 9}[r.Intn(7)]
+		if forced != nil {
+			size = []int{2*BS + 9, BS}[i]
+		}
+		d := lib.RunContent(r, size)
+		cf.old.Put(lib.Entry{Path: fmt.Sprintf("o%d.bin", i), Kind: "file", Data: d})
+		olds = append(olds, d)
+	}
+	nNew := r.Range(1, 3)
+	if forced != nil {
+		nNew = len(forced)
+	}
+	bad := r.Chance(1, 3) // at most one ill-formed series per patch, in a random position
+	badAt := r.Intn(nNew)
+	classes := []string{}
+	cf.dirs = []string{"d"}
+	if forced == nil && r.Chance(1, 4) {
+		cf.links = append(cf.links, [2]string{"lnk", "o0.bin"})
+	}
+	for i := 0; i < nNew; i++ {
+		p := fmt.Sprintf("n%d.bin", i)
+		if i == 1 {
+			p = "d/n1.bin"
+		}
+		if i == 2 && forced == nil && r.Chance(1, 6) {
+			p = "nodir/n2.bin" // parent not among the container's dirs: Prepare fails
+			classes = append(classes, "parent-missing")
+		}
+		t := int64(r.Intn(nOld))
+		if forced != nil {
+			t = 0
+		}
+		od := olds[t]
+		nb := (int64(len(od)) + int64(BS) - 1) / int64(BS)
+		var ms []lib.PMsg
+		var content []byte
+		size := int64(-1)
+		known := true
+		shape := r.Intn(7)
+		if bad && i == badAt {
+			shape = 7 + r.Intn(10)
+		}
+		if forced != nil {
+			shape = forced[i]
+		}
+		switch shape {
+		case 0: // full-file op, sometimes followed by ops the patcher must ignore
+			if nb == 0 {
+				ms, content = []lib.PMsg{lib.DataOp(nil)}, []byte{}
+				classes = append(classes, "empty-data")
+				break
+			}
+			ms, content = []lib.PMsg{lib.Range(t, 0, nb)}, od
+			switch r.Intn(3) {
+			case 1:
+				ms = append(ms, lib.DataOp(nil))
+				classes = append(classes, "full+empty-data")
+			case 2:
+				ms = append(ms, lib.DataOp(blk(9, 3)), lib.Range(t, 0, 1))
+				classes = append(classes, "full+junk")
+			default:
+				classes = append(classes, "full")
+			}
+		case 1, 2: // ranges and data
+			k := r.Range(1, 4)
+			for j := 0; j < k; j++ {
+				if nb > 0 && r.Bool() {
+					bi := int64(r.Intn(int(nb)))
+					sp := int64(r.Range(1, int(nb-bi)))
+					ms = append(ms, lib.Range(t, bi, sp))
+					to := (bi + sp) * int64(BS)
+					if to > int64(len(od)) {
+						to = int64(len(od))
+					}
+					content = append(content, od[bi*int64(BS):to]...)
+				} else {
+					d := blk(byte(10+j), []int{0, 1, 70, BS}[r.Intn(4)])
+					ms = append(ms, lib.DataOp(d))
+					content = append(content, d...)
+				}
+			}
+			// a first op that looks like a full-file op must be one (the generator of valid
+			// series never emits a non-full range from block 0 of an equally sized file ...)
+			classes = append(classes, "ranges+data")
+		case 3: // first range starts at block 0 and spans all blocks, but the sizes differ => not a full-file op
+			if nb == 0 {
+				ms, content = []lib.PMsg{lib.DataOp(blk(3, 2))}, blk(3, 2)
+				break
+			}
+			ms = []lib.PMsg{lib.Range(t, 0, nb), lib.DataOp(blk(4, 1))}
+			content = cat(od, blk(4, 1))
+			classes = append(classes, "covering-range+data")
+		case 4: // declared size larger than what the ops write: the tail keeps Prepare's zeros
+			d := blk(5, r.Range(1, 50))
+			ms, content = []lib.PMsg{lib.DataOp(d)}, cat(d, make([]byte, 7))
+			size = int64(len(content))
+			classes = append(classes, "short-write")
+		case 5: // declared size smaller than what the ops write
+			d := blk(6, r.Range(10, 50))
+			ms, content = []lib.PMsg{lib.DataOp(d)}, d
+			size = int64(len(d) - 4)
+			classes = append(classes, "long-write")
+		case 6: // bsdiff series
+			ms, content = craftBsdiff(r, t, od)
+			classes = append(classes, "bsdiff")
+		// ---- ill-formed ----
+		case 7: // range past the end of the old file: fewer bytes, no error
+			ms = []lib.PMsg{lib.DataOp(blk(1, 1)), lib.Range(t, nb, 2)}
+			known = false
+			classes = append(classes, "bad/range-past-end")
+		case 8: // span reaching over the end
+			ms = []lib.PMsg{lib.DataOp(blk(1, 1)), lib.Range(t, 0, nb+2)}
+			known = false
+			classes = append(classes, "bad/span-over-end")
+		case 9:
+			ms = []lib.PMsg{lib.DataOp(blk(1, 1)), lib.Range(t, -1, 1)}
+			known = false
+			classes = append(classes, "bad/negative-block")
+		case 10: // old file index out of range (first op: isFullFileOp indexes unchecked)
+			ms = []lib.PMsg{lib.Range(int64(nOld)+int64(r.Intn(2)), int64(r.Intn(2)), 1)}
+			known = false
+			classes = append(classes, "bad/file-index")
+		case 11:
+			ms = []lib.PMsg{lib.DataOp(blk(1, 1)), {Kind: "so", Type: 7}}
+			known = false
+			classes = append(classes, "bad/op-type")
+		case 12: // no op at all before the marker
+			ms = nil
+			known = false
+			classes = append(classes, "bad/no-op")
+		case 13: // span 0 / negative
+			ms = []lib.PMsg{lib.DataOp(blk(1, 2)), lib.Range(t, 0, int64(r.Range(-1, 0)))}
+			known = false
+			classes = append(classes, "bad/span")
+		case 14: // bsdiff with a control reading past the old file
+			ms = []lib.PMsg{lib.BH(t), lib.Ctl(blk(1, len(od)+1), nil, 0), lib.CtlEof()}
+			known = false
+			classes = append(classes, "bad/bsdiff-add-past-end")
+		case 16: // looks like a full-file op but starts at block 1 (never emitted by the differ)
+			ms = []lib.PMsg{lib.Range(t, 1, nb)}
+			size = int64(len(od))
+			known = false
+			classes = append(classes, "bad/shifted-full")
+		case 15: // bsdiff whose output length is not the declared size
+			ms = []lib.PMsg{lib.BH(t), lib.Ctl(nil, blk(2, 5), 0), lib.CtlEof()}
+			size = 9
+			known = false
+			classes = append(classes, "bad/bsdiff-size")
+		}
+		if size < 0 {
+			size = int64(len(content))
+		}
+		typ := int64(0)
+		if len(ms) > 0 && ms[0].Kind == "bh" {
+			typ = 1
+		}
+		cf.files = append(cf.files, craftFile{p, size})
+		cf.msgs = append(cf.msgs, lib.SH(typ, int64(i)))
+		cf.msgs = append(cf.msgs, ms...)
+		cf.msgs = append(cf.msgs, lib.Hey())
+		if known {
+			cf.want[p] = content
+		}
+	}
+	// stream-level damage
+	if dmg := r.Intn(4); (forced == nil && r.Chance(1, 8)) || damage >= 0 {
+		if damage >= 0 {
+			dmg = damage
+		}
+		switch dmg {
+		case 0:
+			cf.msgs = cf.msgs[:len(cf.msgs)-1] // last end marker missing
+			classes = append(classes, "bad/truncated")
+		case 1:
+			cf.msgs[0] = lib.SH(0, 1) // wrong index
+			classes = append(classes, "bad/header-index")
+		case 2:
+			cf.msgs[0] = lib.SH(2, 0) // unknown series kind
+			classes = append(classes, "bad/series-kind")
+		case 3:
+			cf.msgs = append(cf.msgs, lib.DataOp(blk(1, 3))) // left-over after the last series: never read
+			classes = append(classes, "left-over")
+		}
+		cf.want = nil
+	}
+	for _, cl := range classes {
+		if strings.HasPrefix(cl, "bad/") || cl == "parent-missing" {
+			cf.want = nil
+		}
+	}
+	cf.class = strings.Join(classes, ",")
+	return cf
+}
+
+// craftBsdiff: a bsdiff series against old file t and the bytes it produces.
+func craftBsdiff(r *lib.Rng, t int64, od []byte) ([]lib.PMsg, []byte) {
+	ms := []lib.PMsg{lib.BH(t)}
+	var out []byte
+	off := int64(0)
+	k := r.Range(0, 3)
+	for j := 0; j < k; j++ {
+		var add []byte
+		if rem := int64(len(od)) - off; rem > 0 && r.Bool() {
+			n := int64(r.Range(1, int(min64(rem, 70000))))
+			add = blk(byte(r.Intn(3)), int(n))
+			for x := int64(0); x < n; x++ {
+				out = append(out, add[x]+od[off+x])
+			}
+		}
+		cp := blk(byte(20+j), r.Intn(4))
+		out = append(out, cp...)
+		seek := int64(0)
+		noff := off + int64(len(add))
+		if r.Bool() {
+			seek = int64(r.Range(int(-noff), int(int64(len(od))-noff)))
+		}
+		ms = append(ms, lib.Ctl(add, cp, seek))
+		off = noff + seek
+	}
+	ms = append(ms, lib.CtlEof())
+	return ms, out
+}
+
+func min64(a, b int64) int64 {
+	if a < b {
+		return a
+	}
+	return b
+}
+
+// craftCorpus: every series shape once on its own, every ill-formed shape also in front of a
+// well-formed series, every stream-level damage; the same in every run (fixed sub-seeds).
+func craftCorpus() []*craft {
+	var out []*craft
+	for shape := 0; shape <= 16; shape++ {
+		out = append(out, genCraftWith(lib.NewRng(uint64(1000+shape)), []int{shape}, -1))
+		if shape >= 7 {
+			out = append(out, genCraftWith(lib.NewRng(uint64(2000+shape)), []int{shape, 1}, -1))
+		}
+	}
+	for v := 0; v < 3; v++ { // the three variants of the full-file shape
+		out = append(out, genCraftWith(lib.NewRng(uint64(3000+v)), []int{0, 0, 0}, -1))
+	}
+	for dmg := 0; dmg < 4; dmg++ {
+		out = append(out, genCraftWith(lib.NewRng(uint64(4000+dmg)), []int{1, 6}, dmg))
+	}
+	for _, cf := range out {
+		cf.class = "corpus/" + cf.class
+	}
+	return out
+}
+
+func c01Craft(c *Ctx) error {
+	r := c.Rng.Fork()
+	for i, cf := range craftCorpus() {
+		if err := runCraft(c, fmt.Sprintf("c01-craftcorpus-%d", i), cf, lib.Compressions[i%len(lib.Compressions)]); err != nil {
+			return err
+		}
+	}
+	n := nFor(c, 30, 1500, 900)
+	for i := 0; i < n; i++ {
+		cr := r.Fork()
+		cf := genCraft(cr)
+		if err := runCraft(c, fmt.Sprintf("c01-craft-%d", i), cf, lib.Compressions[(i+int(c.Seed))%len(lib.Compressions)]); err != nil {
+			return err
+		}
+	}
+	return nil
+}
+
+func runCraft(c *Ctx, name string, cf *craft, comp lib.Compression) error {
+	base := filepath.Join(c.Tmp, name)
+	oldDir, outDir := filepath.Join(base, "old"), filepath.Join(base, "out")
+	defer removeAll(base)
+	if err := cf.old.WriteTo(oldDir); err != nil {
+		return err
+	}
+	oldC, err := lib.Walk(oldDir)
+	if err != nil {
+		return err
+	}
+	newC := cf.container()
+	patch, err := lib.EncodePatch(comp, oldC, newC, cf.msgs)
+	if err != nil {
+		return err
+	}
+	cls, msg := lib.Guard(func() error {
+		_, err := lib.ApplyFresh(patch, oldDir, outDir, nil, nil)
+		return err
+	})
+	oracle := ""
+	var got *lib.Build
+	if cls == "ok" {
+		got, err = lib.ReadBuild(outDir)
+		if err != nil {
+			return err
+		}
+	} else {
+		got = &lib.Build{}
+	}
+	if cf.want != nil {
+		// a well-formed hand-made patch: it must apply and give exactly the contents its ops denote
+		if cls != "ok" {
+			oracle = "well-formed crafted patch: " + cls + ": " + msg
+		} else {
+			for p, w := range cf.want {
+				e := got.Get(p)
+				if e == nil || e.Kind != "file" || !bytes.Equal(e.Data, w) {
+					oracle = fmt.Sprintf("crafted patch: %s does not hold the bytes its ops denote", p)
+				}
+			}
+		}
+	}
+	d := lib.NewPathDict()
+	os.RemoveAll(outDir)
+	c.Out.Emit(&lib.Case{Group: "craft", Class: "craft/" + cf.class, Nontrivial: len(cf.msgs) > 3,
+		Input: map[string]interface{}{"old": cf.old.Summary(), "newFiles": fmt.Sprint(cf.files), "msgs": lib.MsgSummary(cf.msgs), "compression": comp.String()},
+		Obs:   map[string]interface{}{"class": cls, "msg": firstLine(msg)}, Oracle: oracle,
+		Coq: fmt.Sprintf("($ID%%N, %s, %s, %s, %s, %s, %s)", lib.CoqContainer(oldC, d), lib.CoqContainer(newC, d), coqRleList(oldContents(oldC, cf.old)),
+			lib.CoqMsgs(cf.msgs), lib.CoqZ(classCode(cls)), lib.CoqTree(got, d))})
+	return nil
+}
+
+func firstLine(s string) string {
+	if i := strings.IndexByte(s, '\n'); i >= 0 {
+		s = s[:i]
+	}
+	if len(s) > 200 {
+		s = s[:200]
+	}
+	return s
 }
